@@ -101,6 +101,11 @@ func c08Case(c *rep.Ctx, r c08Replay) {
 		restore = func() { os.Chdir(wd) }
 	case "slash":
 		target = j.Target + "/"
+	case "symlink":
+		link := filepath.Join(j.Root, "link-to-target")
+		os.Symlink(j.Target, link)
+		restore = func() { os.Remove(link) }
+		target = link
 	case "dot", "dot-given-last":
 		wd, _ := os.Getwd()
 		os.Chdir(j.Target)
@@ -335,7 +340,7 @@ func init() {
 							}
 						}
 						if c.R.States%7 == 0 {
-							for _, form := range []string{"rel", "slash", "dot", "dot-given-last", "given-twice"} {
+							for _, form := range []string{"rel", "slash", "dot", "dot-given-last", "given-twice", "symlink"} {
 								c08Case(c, c08Replay{Kind: "c08", Depth: d, Names: names, State: st, Strict: true, Form: form, Route: "md"})
 							}
 							// the deprecated aliases take the same options
